@@ -539,6 +539,35 @@ func runC09(p *core.Program, r *core.Report) {
 						}
 					}
 				}
+				if from != nil {
+					extra := unaccountedGuard(fn, from, func(cv ssa.Value) bool {
+						if isNilTest(cv) {
+							return true
+						}
+						if u, ok := cv.(*ssa.UnOp); ok && u.Op == token.MUL {
+							_, isF := u.X.(*ssa.FieldAddr)
+							return isF // x.isValid
+						}
+						if bo, ok := cv.(*ssa.BinOp); ok {
+							if b, isB := bo.X.Type().Underlying().(*types.Basic); isB && b.Kind() == types.Uint8 {
+								return true // query[i] against the node's byte
+							}
+							// the rejection of the empty query
+							for i, side := range []ssa.Value{bo.X, bo.Y} {
+								other := []ssa.Value{bo.Y, bo.X}[i]
+								if call, ok := side.(*ssa.Call); ok {
+									if bi, isB := call.Call.Value.(*ssa.Builtin); isB && bi.Name() == "len" && call.Call.Args[0] == ssa.Value(q) {
+										if k, isK := path.IntConst(other); isK && (k == 0 || k == 1) {
+											return true
+										}
+									}
+								}
+							}
+						}
+						return false
+					})
+					c.ob("AG2", fname, "length advances at every terminal node on the way", p.InstrPos(ret), extra == nil, "the update of length hangs on a branch besides the byte comparisons and isValid: some stored prefixes of the query are passed over")
+				}
 				c.ob("AG2", fname, "length advances only at a terminal node", p.InstrPos(ret), okV, "length is updated on a path that is not dominated by (query[i] == x.c and x.isValid) with the new value i+1: a non-terminal prefix could be reported")
 			}
 			walk(sl.High, nil)
